@@ -191,6 +191,7 @@ type World struct {
 	specHeap    map[string][]string
 	ghostFields map[string]map[string]*ghostFieldInfo // owner type string -> field name -> info
 	pendingGhosts []*GhostField
+	ghostVars     map[string]*ghostVarInfo
 	specHeapBusy map[string]bool
 	errs        []string
 }
@@ -555,6 +556,30 @@ func selApp(si *StructInfo, k int, x string) string {
 		}
 	}
 	return app(selName(si, k), x)
+}
+
+type ghostVarInfo struct {
+	id   int
+	text string
+	T    types.Type
+}
+
+// ghostVar: specification-only global state. A map-typed ghost variable IS a constant non-nil map reference (the
+// map it refers to is mutable); any other ghost variable is a heap cell at a constant address of its own.
+func (w *World) ghostVar(name string) (addr string, t types.Type, ok bool) {
+	gv, found := w.ghostVars[name]
+	if !found {
+		return "", nil, false
+	}
+	if gv.T == nil {
+		ft := w.resolveType(nil, gv.text)
+		if _, isMap := ft.Underlying().(*types.Map); isMap {
+			gv.T = ft
+		} else {
+			gv.T = types.NewNamed(types.NewTypeName(0, nil, "ghost$var_"+sanitize(name), nil), ft.Underlying(), nil)
+		}
+	}
+	return fmt.Sprintf("(loc (- 0 %d) pnil)", 5000000+gv.id), gv.T, true
 }
 
 type ghostFieldInfo struct {
